@@ -109,3 +109,15 @@ def union_operand_supertype():
     u = C.ConstraintsUnion(a, C.ValueRangeConstraint(1, 3))
     return bool(a.isSuperTypeOf(u)), 'SingleValueConstraint(5).isSuperTypeOf(ConstraintsUnion(SingleValueConstraint(5), ' \
                                      'ValueRangeConstraint(1, 3))) = %r; the union admits 2' % a.isSuperTypeOf(u)
+
+
+def real_value_constraints():
+    from pyasn1.type import univ, constraint
+    from pyasn1 import error
+    try:
+        univ.Real(1.5, subtypeSpec=constraint.ValueRangeConstraint(1.0, 2.0))
+    except error.PyAsn1Error as e:
+        return True, 'REAL (1.0..2.0) refuses 1.5: %s' % str(e)[:80]
+    except TypeError as e:
+        return True, 'Real(1.5, subtypeSpec=ValueRangeConstraint(1.0, 2.0)) raises TypeError: %s' % e
+    return False, 'REAL (1.0..2.0) admits 1.5'
